@@ -12,6 +12,7 @@ import Falcon.Model.KeygenSkel
 import Falcon.Model.SignSkel
 import Falcon.Model.FftFlt
 import Falcon.Model.FfSampling
+import Falcon.Model.SignFlt
 import Falcon.Spec.RefFormat
 import Falcon.Spec.Codec
 /- dispatch of one line-protocol op to the model -/
@@ -171,6 +172,20 @@ def execOp (chk : Bool) (tok : List String) : String :=
       renderRes (fun o => match o with
         | none => "Exhausted"
         | some (f, g) => renderInts f ++ " " ++ renderInts g) (KeygenSkel.firstCandidate chk (parseNat n) sd)
+  | ["sign_model", n, _, r0, r1, r2, r3, msg, seed, len, pk] =>
+      let N := parseNat n
+      let b0 := [parseInts r0, parseInts r1, parseInts r2, parseInts r3]
+      let stream := (SignFlt.Prng.new (parseNat seed).toUInt64).bytes (parseNat len)
+      let m := parseHex msg
+      match SignFlt.sign chk N b0 m stream with
+      | .panic k => "panic " ++ toString (repr k)
+      | .ok (.error e) => e
+      | .ok (.ok (sig, rej, retries, _)) =>
+        let v := match Verify.verifyBytes chk N m sig (parseHex pk) with
+          | .ok (some b) => toString b
+          | .ok none => "undecodable"
+          | .panic _ => "panic"
+        s!"{renderHex sig} {rej + retries + 1} {retries} {v}"
   | ["tree_leaves", n, r0, r1, r2, r3] =>
       let b0 := [parseInts r0, parseInts r1, parseInts r2, parseInts r3]
       ",".intercalate ((FfS.normalizedLeaves (FfS.sigmaOf (parseNat n)) (FfS.treeOfB0 b0)).map fun x => toString x.toBits.toNat)
